@@ -1,6 +1,7 @@
 package main
 
 import (
+	"encoding/json"
 	"fmt"
 	"go/types"
 	"math"
@@ -474,6 +475,24 @@ func init() {
 			}
 		}
 		return nil
+	}
+
+	// ---- encoding/json.Marshal of a concrete value: native call-out (reflection-heavy encoder is not
+	// interpreted); symbolic arguments are unsupported ----
+	intrinsics["encoding/json.Marshal"] = func(e *Exec, fn *ssa.Function, a []Value, c *Frame) Value {
+		n, ok := e.toNative(a[0], nil)
+		if !ok {
+			e.unsupported("encoding/json.Marshal of a symbolic or non-plain value")
+		}
+		b, err := json.Marshal(n)
+		if err != nil {
+			e.unsupported("encoding/json.Marshal native error: " + err.Error())
+		}
+		vals := make([]Value, len(b))
+		for i, x := range b {
+			vals[i] = e.tt.BVConst(uint64(x), 8)
+		}
+		return TupleV{e.sliceFrom(types.Typ[types.Uint8], vals), IfaceV{}}
 	}
 
 	// ---- sync.Pool: a LIFO free list per pool (one valid behaviour of the real pool: single P, no GC) ----
